@@ -194,15 +194,20 @@ func Explode(dstDir string, inputShard string) error {
 		}
 	}
 
-	// best effort rename shards.
+	// best effort rename shards, but report the first failure: the repository
+	// of a shard that could not be renamed is in no shard at all now.
+	var renameErr error
 	for tmpFn, dstFn := range exploded {
 		verifhook.FS("rename", tmpFn, dstFn)
 		if err := os.Rename(tmpFn, dstFn); err != nil {
 			log.Printf("explode: rename failed: %s", err)
+			if renameErr == nil {
+				renameErr = fmt.Errorf("zoekt.Explode: %w", err)
+			}
 		}
 	}
 
-	return nil
+	return renameErr
 }
 
 type shardBuilderFunc func(ib *ShardBuilder)
